@@ -79,6 +79,8 @@ def gen_cases(rng, tier):
         ids = sorted(rng.sample(range(7), N)) if style == "str" else sorted(rng.sample(INT_POOL, N))
         if k % 2 == 0:
             ns = rng.choice([0, 1, 2, 3, 5, 8, 14])
+            if k % 60 == 22:      # round sample counts (block sizes of vectorised implementations): every sample counts once
+                ns = [1024, 2048, 256, 1000, 512, 4096, 128][(k // 60) % 7]
             used = ids if rng.random() < 0.7 else ids[: max(1, N - 1)]
             labels = [rng.choice(used) for _ in range(ns)]
             preds = [rng.choice(used) if rng.random() < 0.6 else lab for lab in labels]
